@@ -1536,6 +1536,18 @@ impl<'a> VisitMut for Rules<'a> {
                 return;
             }
         }
+        if self.ctx.on("R62") {
+            // R62: `a.partial_cmp(b)` on floats -> the trusted stub vx_f64_partial_cmp(a, b) (prelude/f64_cmp.rs: the IEEE partial order)
+            if let syn::Expr::MethodCall(mc) = e {
+                if mc.method == "partial_cmp" && mc.args.len() == 1 {
+                    let (a, b) = ((*mc.receiver).clone(), mc.args[0].clone());
+                    *e = syn::parse_quote!(vx_f64_partial_cmp(#a, #b));
+                    self.ctx.used("R62");
+                    syn::visit_mut::visit_expr_mut(self, e);
+                    return;
+                }
+            }
+        }
         if self.ctx.on("R61") {
             // R61: a filtered enumeration consumed by `min` / `min_by` (std definitions: both fold over the items in order and replace the current
             // choice only when it compares Greater than the new item; `filter` sees references to the items):
@@ -2069,7 +2081,11 @@ impl<'a> VisitMut for Rules<'a> {
                     let nn = syn::Ident::new(&format!("vx_n{}", k), proc_macro2::Span::call_site());
                     let ii = syn::Ident::new(&format!("vx_i{}", k), proc_macro2::Span::call_site());
                     let vv = syn::Ident::new(&format!("vx_v{}", k), proc_macro2::Span::call_site());
-                    let recv = (*fl.expr).clone();
+                    // `for x in V.iter()` is `for x in &V`
+                    let recv: syn::Expr = match &*fl.expr {
+                        syn::Expr::MethodCall(it) if it.method == "iter" && it.args.is_empty() => { let inner = &it.receiver; syn::parse_quote!(&#inner) }
+                        other => other.clone(),
+                    };
                     let pat = fl.pat.clone();
                     let stmts = &fl.body.stmts;
                     let label = fl.label.clone();
